@@ -471,6 +471,10 @@ func (x *CommonLex) LexLiteral(quote rune) (int, TokVal) {
 	// adds first character, we also need to detect empty strings here.
 	var b bytes.Buffer
 	c := x.Next()
+	if c == xutils.ERR {
+		x.SetError(fmt.Errorf("Invalid UTF-8 input"))
+		return xutils.ERR, nil
+	}
 	if c != quote {
 		b = x.ConstructToken(c, literalMatcher,
 			xutils.GetTokenName(xutils.LITERAL))
@@ -557,6 +561,12 @@ func (x *CommonLex) ConstructToken(
 			if c == xutils.EOF {
 				x.SetError(fmt.Errorf("End of %s token not detected.",
 					tokenName))
+				break
+			}
+			if c == xutils.ERR {
+				// Invalid UTF-8 is invalid everywhere, including inside
+				// a literal (whose matcher accepts anything but the quote).
+				x.SetError(fmt.Errorf("Invalid UTF-8 input"))
 				break
 			}
 			add(&b, c)
